@@ -187,7 +187,11 @@ def openStore (fid : Nat) (f : Bytes) (cmpOf : Bytes → CmpKind) : OpenRes :=
 /-- `Store.FlushRevert` on a file-backed store: new store state and the new file contents -/
 def revertStore (st : Store) (fid : Nat) (f : Bytes) (cmpOf : Bytes → CmpKind) :
     Option (Store × Bytes) :=
-  let sz := if st.size > rootsLen then st.size - 1 else st.size
+  -- first locate the end of the most recent root record (after a failed Flush `size` lies beyond it)
+  let cur := match scanRoots f true st.size with
+    | .found e _ => e
+    | _ => 0
+  let sz := if cur > rootsLen then cur - 1 else cur
   match scanRoots f true sz with
   | .found e roots =>
     match loadColls f cmpOf roots with
